@@ -8,6 +8,9 @@
   add_charge_array (no clusters present): array' == array + a, everything else unchanged
   pixel centres: floor(((r + 1/2) ph) / ph) == r, same for columns (array -> clusters conversion is faithful)
   empty(): array all zero, no clusters
+  array_to_df: cluster m = the m-th positive pixel of the row-major flattened array, positioned at that pixel's centre, carrying its charge
+  mixed.routing: add_charge_array onto clusters / add_charge_dataframe onto a non-zero array convert with the detector's own geometry and
+      concatenate old-then-new; nothing is dropped; ids advance by the number of new clusters
 """
 from __future__ import annotations
 
@@ -19,7 +22,9 @@ CH = "pyxel/data_structure/charge.py"
 GEO = "pyxel/detectors/geometry.py"
 TRUSTED = ["pandas: df[col].values yields the column in row order (get_frame_values is a boundary contract)", "A-NUMBA",
            "np.floor_divide = floor(a/b) in exact arithmetic (one-ulp effects at exact pixel borders ignored)",
-           "add_charge_dataframe / convert_array_to_df beyond the centre-position lemma are pandas boundaries (not proved)"]
+           "np.where(mask) enumerates every true index exactly once, in increasing order; pandas concat keeps the rows of its parts in order; create_charges builds the table from "
+           "its columns (boundaries); the step from 'one cluster per positive pixel, at its centre, with its charge' to 'binning the clusters reproduces the array' is arithmetic "
+           "on a bijection and is not re-derived by the solver"]
 R, C_ = D.ROWS, D.COLS
 G = D.GEN
 M = z3.Int("n_clusters")
